@@ -3,6 +3,7 @@ package main
 import (
 	"fmt"
 	"go/ast"
+	"go/token"
 	"go/types"
 	"strings"
 
@@ -268,6 +269,15 @@ func c13PromptGate(c *Check, a *Anchors) {
 func c13Platform(c *Check, a *Anchors) {
 	c.Rule("platform-table", "decision table of the platform test: true IFF the list is empty OR some entry has (OS empty or == GOOS) AND (Arch empty or == GOARCH); in RunTask the false edge returns nil without reaching the dedup call")
 	fb := a.PlatformTest
+	listFb := fb
+	var bad []string
+	// the test may be split: slices.ContainsFunc(list, predicate) decides "some entry matches" (library semantics), the
+	// predicate — a literal, or the function / method it returns the result of — decides one entry
+	elemOnly := false
+	if pred, listBad := platformContainsForm(c, fb); pred != nil {
+		bad = append(bad, listBad...)
+		fb, elemOnly = pred, true
+	}
 	fn := c.P.SSAFunc(fb)
 	if fn == nil {
 		c.Errorf("platform-table: no SSA for the platform test")
@@ -277,14 +287,44 @@ func c13Platform(c *Check, a *Anchors) {
 	pe := &PathEnum{Fn: fn, MaxRevisit: revisit()}
 	pe.Run()
 	c.Paths += len(pe.Paths)
-	var bad []string
 	n := 0
+	// a path that returns the value of a comparison stands for two: the comparison true (result true) and false (result false)
+	var paths []*Path
 	for _, p := range pe.Paths {
+		if !p.Panic && len(p.Out) == 1 && strings.HasPrefix(p.Out[0], "bool:") {
+			atom := strings.TrimPrefix(p.Out[0], "bool:")
+			for _, val := range []bool{true, false} {
+				q := *p
+				q.Asg = map[string]bool{}
+				for k, v := range p.Asg {
+					q.Asg[k] = v
+				}
+				q.Asg[atom] = val
+				q.Out = []string{fmt.Sprint(val)}
+				paths = append(paths, &q)
+			}
+			continue
+		}
+		paths = append(paths, p)
+	}
+	for _, p := range paths {
 		if p.Panic || len(p.Out) != 1 {
 			continue
 		}
 		n++
 		var osE, osQ, arE, arQ, empty string
+		nilEntry := false
+		for k, v := range p.Asg {
+			if strings.HasPrefix(k, "nil(param:") && v && elemOnly {
+				nilEntry = true // a nil entry matches nothing
+			}
+		}
+		if nilEntry {
+			if p.Out[0] != "false" {
+				bad = append(bad, "a nil entry is reported as matching: "+p.String())
+			}
+			continue
+		}
 		for k := range p.Asg {
 			switch {
 			case strings.HasPrefix(k, "empty(param:"):
@@ -328,8 +368,13 @@ func c13Platform(c *Check, a *Anchors) {
 	}
 	if n < 3 {
 		c.Errorf("platform-table: only %d paths enumerated", n)
+		for i, p := range pe.Paths {
+			if i < 8 {
+				c.Notef("platform-table debug path: %s", p)
+			}
+		}
 	}
-	c.Decide(len(bad) == 0, "platform-table", "table@"+fnDisplay(fb), fb.Decl.Pos(), fmt.Sprintf("holds on all %d paths", n), strings.Join(bad, " || "))
+	c.Decide(len(bad) == 0, "platform-table", "table@"+fnDisplay(listFb), listFb.Decl.Pos(), fmt.Sprintf("holds on all %d paths", n), strings.Join(bad, " || "))
 	// RunTask: false edge returns nil before dedup
 	rt := a.RunTask
 	f := NewFlow(c.P, rt, a.labelRun(rt.Info()))
@@ -502,6 +547,13 @@ func c13EnumTotal(c *Check, a *Anchors) {
 		return
 	}
 	c.Fn(fb)
+	// a loop over an iterator function is compiled into a synthetic yield function that holds the loop body: one iteration
+	// is one call of it
+	for _, af := range fn.AnonFuncs {
+		if strings.Contains(af.Synthetic, "range-over-func") {
+			fn = af
+		}
+	}
 	pe := &PathEnum{Fn: fn, MaxRevisit: revisit(), Event: func(in ssa.Instruction) (string, string) {
 		if call, ok := in.(*ssa.Call); ok {
 			if b, ok := call.Common().Value.(*ssa.Builtin); ok && b.Name() == "append" {
@@ -561,4 +613,118 @@ func c13EnumTotal(c *Check, a *Anchors) {
 		bad = bad[:3]
 	}
 	c.Decide(len(bad) == 0, "enum-total", "table@"+fnDisplay(fb), fb.Decl.Pos(), fmt.Sprintf("holds on all %d enum-carrying paths", n), strings.Join(bad, " || "))
+}
+
+// platformContainsForm: the platform test decides "some entry matches" with slices.ContainsFunc over its list parameter.
+// Returns the function that decides ONE entry and the defects of the list-level part: every return must be `true` on the
+// empty-list edge, the ContainsFunc call on the list, or a disjunction of the two.
+func platformContainsForm(c *Check, fb *FuncBody) (*FuncBody, []string) {
+	info := fb.Info()
+	var list *types.Var
+	for _, fld := range fb.Type.Params.List {
+		for _, id := range fld.Names {
+			if v, ok := info.Defs[id].(*types.Var); ok && sliceOfPtrTo(v.Type(), PkgAst, "Platform") {
+				list = v
+			}
+		}
+	}
+	if list == nil {
+		return nil, nil
+	}
+	var cf *ast.CallExpr
+	inspectBody(fb.Body, func(n ast.Node) bool {
+		if call, ok := n.(*ast.CallExpr); ok && isFunc(callee(info, call), "slices", "", "ContainsFunc") && len(call.Args) == 2 && varOf(info, call.Args[0]) == list {
+			cf = call
+		}
+		return true
+	})
+	if cf == nil {
+		return nil, nil
+	}
+	var pred *FuncBody
+	switch x := ast.Unparen(cf.Args[1]).(type) {
+	case *ast.FuncLit:
+		pred = c.P.LitBody(x)
+		// a literal that only forwards to a function or method of the module: that one decides; it must be handed GOOS / GOARCH
+		if len(x.Body.List) == 1 {
+			if r, ok := x.Body.List[0].(*ast.ReturnStmt); ok && len(r.Results) == 1 {
+				if call, ok := ast.Unparen(r.Results[0]).(*ast.CallExpr); ok {
+					if fn, ok := callee(info, call).(*types.Func); ok {
+						if h := c.P.DeclOf(fn); h != nil && h.Decl != nil && strings.HasPrefix(h.Pkg.PkgPath, Mod) {
+							pred = h
+						}
+					}
+				}
+			}
+		}
+	case *ast.Ident, *ast.SelectorExpr:
+		var id *ast.Ident
+		if i, ok := x.(*ast.Ident); ok {
+			id = i
+		} else {
+			id = x.(*ast.SelectorExpr).Sel
+		}
+		if fn, ok := info.Uses[id].(*types.Func); ok {
+			pred = c.P.DeclOf(fn)
+		}
+	}
+	if pred == nil {
+		return nil, nil
+	}
+	var bad []string
+	usesOS, usesArch := false, false
+	inspectDeep(fb.Body, func(n ast.Node) bool {
+		if sel, ok := n.(*ast.SelectorExpr); ok {
+			if o := info.Uses[sel.Sel]; o != nil && o.Pkg() != nil && o.Pkg().Path() == "runtime" {
+				switch o.Name() {
+				case "GOOS":
+					usesOS = true
+				case "GOARCH":
+					usesArch = true
+				}
+			}
+		}
+		return true
+	})
+	if pred.Decl != nil && pred.Pkg.PkgPath != PkgTask {
+		// the deciding function takes the platform to compare with as arguments
+		if !usesOS || !usesArch {
+			bad = append(bad, "the entry predicate is not handed runtime.GOOS and runtime.GOARCH")
+		}
+	}
+	f := NewFlow(c.P, fb, func(call *ast.CallExpr, obj types.Object) string { return "" })
+	f.Run()
+	var okExpr func(e ast.Expr, st Facts) bool
+	okExpr = func(e ast.Expr, st Facts) bool {
+		e = ast.Unparen(e)
+		if e == ast.Expr(cf) {
+			return true
+		}
+		if tv, ok := info.Types[e]; ok && tv.Value != nil && tv.Value.String() == "true" {
+			for k := range st {
+				if strings.HasPrefix(k, "empty:") && strings.Contains(k, list.Name()) {
+					return true
+				}
+			}
+			return false
+		}
+		if be, ok := e.(*ast.BinaryExpr); ok && be.Op == token.LOR {
+			lenTest := func(x ast.Expr) bool {
+				b, ok := ast.Unparen(x).(*ast.BinaryExpr)
+				if !ok || b.Op != token.EQL || !constIs(info, b.Y, "0") {
+					return false
+				}
+				call, ok := ast.Unparen(b.X).(*ast.CallExpr)
+				return ok && isBuiltin(info, call, "len") && len(call.Args) == 1 && varOf(info, call.Args[0]) == list
+			}
+			return (lenTest(be.X) || okExpr(be.X, st)) && (lenTest(be.Y) || okExpr(be.Y, st))
+		}
+		return false
+	}
+	for _, r := range f.Returns {
+		if len(r.Results) != 1 || !okExpr(r.Results[0], f.At[r]) {
+			bad = append(bad, "a return of the platform test is neither `true` for the empty list nor the ContainsFunc result: "+exprStrOrNone(errResult(r)))
+		}
+	}
+	return pred, bad
 }
